@@ -9,7 +9,7 @@ CFG = {
     "seq": [("shm", "def", "remove", 45, 400), ("shm", "def", "malformed", 8, 80), ("shm", "def", "table", 6, 60),
             ("mem", "def", "remove", 22, 200), ("mem", "def", "malformed", 5, 50), ("shm", "lim", "remove", 4, 40)],
     "limit": None,
-    "conc": "removal", "conc_quick": 24,
+    "conc": "removal", "conc_quick": 10,
     "conc2_quick": (3, 60), "conc2_thorough": (6, None),
     "rand": ("remove", 8, 100),
 }
